@@ -5,11 +5,19 @@ environment computes `g`; the shared semantic oracle (`lean/Drivers/Sem.lean`, r
 `PySMT.Core.Eval`) then checks `typeOf g = typeOf f`, `fv g <= fv f` and `eval I g = eval I f` under several
 sampled interpretations (those under which a division by zero is evaluated are skipped = the property's proviso).
 
-K (correspondence).  The same `f` is sent to `lean/Drivers/C01.lean` (`simp <term>`), which runs the Lean model
-`PySMT.Simplifier.simp`; the implementation's `g` and the model's answer are compared through `wire.canon_key`
-modulo the order of `and`/`or`/`times` arguments, of quantifier variables and of array-value entries (the
-implementation orders those by set iteration / node id / `id()`; licensed by `eval_perm_*` in
-`lean/PySMT/Proofs/SimpPerm.lean`).  `out-of-fragment` answers are counted and skipped.
+K (correspondence), two levels, both through `lean/Drivers/C01.lean`.
+  K1 `rule <node>`: every call `walk_x(formula, args)` the real simplifier makes is recorded (the entries of
+     `Simplifier.functions` are wrapped) and replayed on the Lean rule of that operator with *the implementation's own*
+     simplified arguments; results are compared through `wire.canon_key` modulo the order of `and`/`or`/`times`
+     arguments, of quantifier variables and of array-value entries (the implementation orders those by set iteration /
+     node id / `id()`; licensed by `eval_perm_and/or` in `lean/PySMT/Proofs/Coincidence.lean` and `eval_perm_times` in
+     `lean/PySMT/Proofs/SimpPerm.lean`).  Together with `simp (node op args p) = rule_op p (args.map simp)` this is the
+     whole simplifier.
+  K2 `simp <term>`: the whole formula through `PySMT.Simplifier.simp`, compared the same way.  `walk_plus` looks at the
+     *last* argument of a product, and `walk_times` orders a product by node id, so the implementation's result
+     depends on the creation order of nodes where the model fixes one order: a K2 difference is a divergence only if
+     some K1 call differs as well; otherwise it is counted as `k2_order_dependent` (evidence), see README of the model.
+  `out-of-fragment` answers (operator without a rule so far) are counted and skipped.
 
 Streams: (1) rule-directed -- for every operator, arguments from shape classes taken from the guards of the
 `walk_*` methods; (2) type-directed random formulas of `harness/gen.py` (quantifiers, UF, all sorts, sharing);
@@ -51,6 +59,33 @@ WIDTHS = (1, 2, 3, 4, 8)
 
 
 # ------------------------------------------------------------------------------------------- shapes
+CORE = {
+    "bool": {"T", "F", "sym", "sym2", "not", "and", "or"},
+    "int": {"0", "1", "-1", "2", "sym", "sym2", "minus", "times-m1", "times-m2", "plus-c", "div"},
+    "real": {"0", "1", "-1", "1/2", "sym", "minus", "times-m1", "times-mh", "plus-c", "toreal"},
+    "bv": {"c0", "c1", "ones", "msb", "sym", "sym2", "not"},
+    "str": {"c:", "c:a", "c:12", "sym", "concat"},
+    "arr": {"const", "val1", "val2", "sym", "store", "store-val", "val-full"},
+    "custom": {"sym", "sym2", "fun"},
+}
+
+
+def kind_of(ty):
+    if ty.is_bool_type():
+        return "bool"
+    if ty.is_int_type():
+        return "int"
+    if ty.is_real_type():
+        return "real"
+    if ty.is_bv_type():
+        return "bv"
+    if ty.is_string_type():
+        return "str"
+    if ty.is_array_type():
+        return "arr"
+    return "custom"
+
+
 class Shapes:
     """argument shape classes per sort, built in one environment"""
 
@@ -109,7 +144,10 @@ class Shapes:
                 u.syms[ty] = [m.Symbol("b%d_%d" % (w, i), ty) for i in range(2)]
             a, b = u.syms[ty]
             vals = sorted({0, 1, (1 << w) - 1, 1 << (w - 1), (1 << (w - 1)) - 1, 5 % (1 << w), 2 % (1 << w)})
-            out = [("c%d" % v, m.BV(v, w)) for v in vals]
+            names = {(1 << w) - 1: "ones", 1 << (w - 1): "msb"}
+            names[0] = "c0"
+            names[1] = "c1"        # width 1: all-ones = msb = 1 is called c1
+            out = [(names.get(v, "c%d" % v), m.BV(v, w)) for v in vals]
             out += [("sym", a), ("sym2", b), ("not", m.BVNot(a)), ("neg", m.BVNeg(a)), ("add", m.BVAdd(a, b)),
                     ("and", m.BVAnd(a, b)), ("ite", m.Ite(u.syms[BOOL][0], a, b))]
         elif ty.is_string_type():
@@ -147,6 +185,13 @@ class Shapes:
             out = [("sym", c), ("sym2", d), ("fun", m.Function(u.funs[0], [c]))]
         self._cache[key] = out
         return out
+
+    def core(self, ty):
+        """indices of the guard-relevant shape classes (enumerated exhaustively for arity <= 2 in the quick tier)"""
+        pal = self.palette(ty)
+        names = CORE[kind_of(ty)]
+        idx = [i for i, (n, f) in enumerate(pal) if n in names]
+        return idx or list(range(len(pal)))
 
 
 def op_table(sh):
@@ -250,16 +295,24 @@ def quant_cases(sh, rng, n):
     return out
 
 
+def rnd2(rng, pals, k):
+    return [tuple(rng.randrange(len(p)) for p in pals) for _ in range(k)]
+
+
 def rule_directed(sh, rng, per_entry, full):
     """yields (tag, formula)"""
     m = sh.m
     table = op_table(sh)
     for (name, fn, tys) in table:
         pals = [sh.palette(t) for t in tys]
+        rnd = [tuple(rng.randrange(len(p)) for p in pals) for _ in range(per_entry)]
         if full and len(tys) <= 2:
             combos = list(product(*[range(len(p)) for p in pals]))
+        elif len(tys) <= 2 or full:
+            # every combination of the guard-relevant shape classes, plus a random sample of the full palette
+            combos = list(product(*[sh.core(t) for t in tys])) + rnd
         else:
-            combos = [tuple(rng.randrange(len(p)) for p in pals) for _ in range(per_entry)]
+            combos = rnd + rnd2(rng, pals, per_entry)
         for combo in combos:
             args = [pals[i][j][1] for i, j in enumerate(combo)]
             shape = "/".join(pals[i][j][0] for i, j in enumerate(combo))
@@ -400,6 +453,47 @@ def build_fnode(env, nodes):
     return built[-1]
 
 
+# ------------------------------------------------------------------------------------------- call recorder (K1)
+class VNode:
+    """the node `formula` with its arguments replaced by the simplified ones (never created in the manager)"""
+
+    def __init__(self, f, args):
+        self._f = f
+        self._args = tuple(args)
+        self._content = f._content
+
+    def node_type(self):
+        return self._f.node_type()
+
+    def args(self):
+        return self._args
+
+
+def record_calls(simplifier, sink):
+    """wrap every entry of the walker's dispatch table; idempotent per simplifier"""
+    if getattr(simplifier, "_c01_recorded", False):
+        simplifier._c01_sink[0] = sink
+        return
+    holder = [sink]
+
+    def wrap(fn):
+        def w(formula, args, **kw):
+            res = fn(formula, args=args, **kw)
+            holder[0].append((formula, list(args), res))
+            return res
+        return w
+    fns = simplifier.functions
+    if isinstance(fns, dict):
+        for k in list(fns.keys()):
+            fns[k] = wrap(fns[k])
+    else:
+        for k in range(len(fns)):
+            if fns[k] is not None:
+                fns[k] = wrap(fns[k])
+    simplifier._c01_recorded = True
+    simplifier._c01_sink = holder
+
+
 # ------------------------------------------------------------------------------------------- the run
 def root_name(f):
     nt = f.node_type()
@@ -451,14 +545,14 @@ def generate(ctx):
     cases = []
     env = Environment()
     sh = Shapes(env, rng)
-    for tag, f in rule_directed(sh, rng, 9 if quick else 60, full=not quick):
+    for tag, f in rule_directed(sh, rng, 5 if quick else 40, full=not quick):
         cases.append((tag, env, f))
     for tag, f in quant_cases(sh, rng, 400 if quick else 6000):
         cases.append((tag, env, f))
     for tag, f in pow_probe(env):
         cases.append((tag, env, f))
     # random type-directed stream; a fresh environment every 400 formulas
-    n_rand = 3500 if quick else 60000
+    n_rand = 3000 if quick else 60000
     fg = None
     for i in range(n_rand):
         if i % 400 == 0:
@@ -480,7 +574,9 @@ def run(ctx):
     igs = {}
     s_lines, k_lines, meta = [], [], []
     ophist = {}
+    calls = []
     for (tag, env, f) in cases:
+        record_calls(env.simplifier, calls)
         if ctx.time_left() < 60:
             ctx.count("generation_cut_by_budget")
             break
@@ -549,28 +645,125 @@ def run(ctx):
         ctx.report_s({"root": root_name(f), "kind": kind},
                      "simplify changed the %s of %s (oracle: %s)" % (kind, rd["formula"][:300], ans[:200]), rd)
     ctx.extra["rule_fired_fraction"] = round(fired / max(1, len(meta)), 4)
+    # smallest failing formulas first: the runner writes one replay per signature, in this order
+    ctx.s_violations.sort(key=lambda v: len(v["replay"].get("term") or ""))
 
-    # ---------------------------------------------------------------- K
+    # ---------------------------------------------------------------- K1: every recorded rule application
+    r_lines, r_meta = [], []
+    for (formula, args, res) in calls:
+        try:
+            r_lines.append("rule " + wire.enc_term(VNode(formula, args)))
+            r_meta.append((formula, args, res, wire.enc_term(res)))
+        except wire.OutOfFragment:
+            ctx.count("wire_out_of_fragment_calls")
+            if len(r_lines) > len(r_meta):
+                r_lines.pop()
+    ctx.extra["k1_rule_calls"] = len(r_lines)
+    try:
+        r_ans = ctx.lean_run_sharded("C01", r_lines)
+    except common.LeanError as e:
+        ctx.report_l("driver C01 does not run", str(e))
+        return
+    k1_div = 0
+    for line, ans, (formula, args, res, eres) in zip(r_lines, r_ans, r_meta):
+        name = root_name(formula)
+        if ans == "out-of-fragment":
+            ctx.count("k_oof_" + name)
+            continue
+        if not ans.startswith("T "):
+            ctx.report_k("model driver answered %r" % ans[:100], {"call": name, "request": line, "lean": ans})
+            k1_div += 1
+            continue
+        ctx.count("k_rule_compared_" + name)
+        if wire.canon_key(wire.dec_term(ans), ac_ops=AC_OPS) != wire.canon_key(wire.dec_term(eres), ac_ops=AC_OPS):
+            k1_div += 1
+            ctx.report_k("rule %s: model and implementation differ on walk(%s, [%s])" % (
+                name, semantic.readable(formula, 150), ", ".join(semantic.readable(a, 80) for a in args)),
+                {"call": name, "formula": semantic.readable(formula, 1000),
+                 "args": [semantic.readable(a, 400) for a in args], "impl": semantic.readable(res, 1000),
+                 "request": line, "impl_term": eres, "lean_term": ans})
+    ctx.extra["k1_divergences"] = k1_div
+
+    # ---------------------------------------------------------------- K2: whole formulas
     try:
         k_ans = ctx.lean_run_sharded("C01", k_lines)
     except common.LeanError as e:
         ctx.report_l("driver C01 does not run", str(e))
         return
+    order_dep = []
     for line, ans, (tag, f, g, ef, eg, its) in zip(k_lines, k_ans, meta):
         if ans == "out-of-fragment":
-            ctx.count("k_out_of_fragment")
-            ctx.count("k_oof_" + root_name(f))
+            ctx.count("k2_out_of_fragment")
             continue
         if not ans.startswith("T "):
             ctx.report_k("model driver answered %r" % ans[:100], {"formula": semantic.readable(f), "term": ef, "lean": ans})
             continue
-        ctx.count("k_compared")
+        ctx.count("k2_compared")
         kl = wire.canon_key(wire.dec_term(ans), ac_ops=AC_OPS)
         kp = wire.canon_key(wire.dec_term(eg), ac_ops=AC_OPS)
         if kl != kp:
-            ctx.report_k("model and implementation simplify %s differently (root %s)" % (semantic.readable(f, 200), root_name(f)),
-                         {"formula": semantic.readable(f, 2000), "impl": semantic.readable(g, 2000), "term": ef,
-                          "impl_term": eg, "lean_term": ans, "tag": tag})
+            order_dep.append({"formula": semantic.readable(f, 2000), "impl": semantic.readable(g, 2000), "term": ef,
+                              "impl_term": eg, "lean_term": ans, "tag": tag})
+    k3_getvalue(ctx)
+    if order_dep:
+        if k1_div == 0:
+            # every single rule application agrees: the difference can only come from the argument order of
+            # products met by walk_plus (node-id order of the implementation vs fixed order of the model)
+            ctx.count("k2_order_dependent", len(order_dep))
+            ctx.extra["k2_order_dependent_sample"] = {k: order_dep[0][k] for k in ("formula", "impl")}
+        else:
+            for d in order_dep[:20]:
+                ctx.report_k("model and implementation simplify %s differently" % d["formula"][:200], d)
+
+
+def k3_getvalue(ctx):
+    """K3 (for C02): EagerModel.get_value end to end against Model.getValue, on quantifier-free, UF-free
+    formulas over Bool/Int/Real with total and partial assignments, both completion modes"""
+    from pysmt.solvers.eager import EagerModel
+    from pysmt.exceptions import PysmtException
+    n = 500 if ctx.tier == "quick" else 8000
+    env = Environment()
+    uni = gen.Universe(env, theories=("bool", "int", "real"))
+    fg = gen.FormulaGen(ctx.rng, uni, max_depth=4, quant_prob=0.0)
+    ig = gen.InterpGen(ctx.rng, uni)
+    mgr = env.formula_manager
+    lines, meta = [], []
+    for _ in range(n):
+        f = fg.gen(fg.any_type(0.5), ctx.rng.choice([2, 3, 4]))
+        syms, fns, doms = ig.for_formula(f)
+        completion = ctx.rng.random() < 0.5
+        asg = {}
+        parts = []
+        for (nm, t, v) in syms:
+            if ctx.rng.random() < 0.25:
+                continue
+            c = semantic.val_to_fnode(mgr, t, v)
+            asg[mgr.Symbol(nm, t)] = c
+            parts.append("%s %s %s" % (wire.hexs(nm), wire.enc_type(t), wire.enc_term(c)))
+        try:
+            r = EagerModel(asg, env).get_value(f, model_completion=completion)
+            out = wire.enc_term(r)
+        except PysmtException as e:
+            out = "none"
+        lines.append("getvalue %d %d %s %s" % (1 if completion else 0, len(parts), " ".join(parts), wire.enc_term(f)))
+        meta.append((f, completion, out))
+    try:
+        ans = ctx.lean_run_sharded("C01", lines)
+    except common.LeanError as e:
+        ctx.report_l("driver C01 does not run", str(e))
+        return
+    for line, a, (f, completion, out) in zip(lines, ans, meta):
+        if a == "out-of-fragment":
+            ctx.count("k3_out_of_fragment")
+            continue
+        ctx.count("k3_getvalue_compared")
+        ctx.count("k3_result_" + ("none" if out == "none" else "constant"))
+        same = (a == out) if (a == "none" or out == "none") else \
+            (wire.canon_key(wire.dec_term(a)) == wire.canon_key(wire.dec_term(out)))
+        if not same:
+            ctx.report_k("get_value: model %s, implementation %s on %s" % (a[:80], out[:80], semantic.readable(f, 200)),
+                         {"formula": semantic.readable(f, 1000), "completion": completion, "request": line,
+                          "lean": a, "impl": out})
 
 
 def _safe_enc(f):
